@@ -22,7 +22,7 @@ from vf.props.common import harness_error, inconclusive, proved, violation
 ID = "C06"
 LEVEL = "model_checking"
 ITEM_BUDGET_S = {"quick": 600, "thorough": 1800}
-QT = {"quick": 15000, "thorough": 60000}
+QT = {"quick": 15000, "thorough": 30000}
 _TIER = "quick"
 ATOL = 1e-6
 RTOL = 1e-6
@@ -30,8 +30,8 @@ RTOL = 1e-6
 META = dict(
     rule="one case = (model, method, explored path of solve() under an arbitrary solver reply); non-trivial = path ending OPTIMAL with at least one constraint or bound obligation decided",
     bounds={
-        "quick": "26 models (0-3 constraints of each sense and orientation, bounds present/absent, scalar/vector/matrix, LP and NLP) x 10 methods {auto, linprog, highs, highs-ds, highs-ipm, SLSQP, trust-constr, L-BFGS-B, BFGS, Nelder-Mead}; all data symbolic; path budget 2500 per (model, method)",
-        "thorough": "adds n=3 vector and symmetric-matrix models; path budget 20000",
+        "quick": "33 models (0-3 constraints of each sense and orientation, bounds present/absent, scalar/vector/matrix, LP and NLP) x 10 methods {auto, linprog, highs, highs-ds, highs-ipm, SLSQP, trust-constr, L-BFGS-B, BFGS, Nelder-Mead}; all data symbolic; path budget 1200 per (model, method)",
+        "thorough": "adds n=3 vector and symmetric-matrix models; path budget 10000",
     },
     outside=["whether SciPy honours the stub contract S4/S5", "methods outside the 8 listed (bounds are not passed to them)", "user-supplied tol (default tolerance only)", "rounding (S7)"],
     assumptions=["S4: minimize reply = arbitrary x (within passed bounds for bounds-capable methods), arbitrary success/message, fun = fun(x)",
@@ -52,7 +52,7 @@ def items(tier, seed):
         for meth in LM.METHODS + LM.EXTRA_METHODS:
             its.append(("mm", (m, meth)))
     # the solve under test as the SECOND solve of a problem object edited in between
-    hmeths = ["auto", "SLSQP"] if tier == "quick" else LM.METHODS + LM.EXTRA_METHODS
+    hmeths = ["auto"] if tier == "quick" else ["auto", "SLSQP", "trust-constr", "L-BFGS-B", "BFGS"]
     for im, m in enumerate(LM.solve_models(tier)):
         if tier == "quick" and im % 3 != 1:
             continue
@@ -86,13 +86,16 @@ def check_mm(model, method, planted=False, hist=None):
     allv = names["vars"] + names["syms"] + names["params"]
     val = K.sym_val(allv)
     tag = f"{model['tag']}/{method}" + (f"/after {hist}" if hist else "")
-    budget = 2500 if _TIER == "quick" else 20000
+    budget = 1200 if _TIER == "quick" else 10000
     observe = (lambda: SV.solve_observe(model, val, method)) if hist is None else (lambda: SV.solve_observe_hist(model, val, method, hist))
     n_opt = 0
     for dec, labels, pc, o in K.explore(observe, max_paths=budget):
         if o.exc is not None:
             if isinstance(o.exc, SymbolicConcretisation):
                 res.append(harness_error(f"concretisation in solve: {o.exc}", item=tag))
+            elif type(o.exc).__name__ in ("TypeError", "AttributeError", "NameError", "KeyError", "IndexError", "UnboundLocalError", "AssertionError"):
+                # not one of the library's own errors: most likely the harness (never skipped silently)
+                res.append(harness_error(f"solve raises {type(o.exc).__name__}: {o.exc}", item=tag))
             continue  # raising (e.g. NonLinearError for linprog on an NLP) is not an OPTIMAL answer
         sol = o.solution
         if sol.status.name != "OPTIMAL":
